@@ -167,6 +167,12 @@ func c16Schedules(r *core.Run) (violated bool) {
 	}
 	n := min(16, max(1, runtime.NumCPU()))
 	secs := int(core.Pick(r, 75*time.Second, 25*time.Minute).Seconds())
+	if v := os.Getenv("VERIF_SOFT_DEADLINE_S"); v != "" { // a shortened soft deadline shortens the shards' share of it
+		var d int
+		if fmt.Sscanf(v, "%d", &d); d > 0 && d/2 < secs {
+			secs = max(10, d/2)
+		}
+	}
 	var wg sync.WaitGroup
 	sums := make([]schedSummary, n)
 	errs := make([]string, n)
